@@ -168,7 +168,7 @@ func c12WideGamut(css string) bool {
 var c12T0 = time.Now()
 
 func runC12(c *Check) {
-	c.Rule = "style sheets over a generated grammar: 37 selectors (type/class/id/attribute/pseudo, combinators, :is/:where/:not/:has, lists, deliberately unknown selectors) x ~180 declaration blocks in 7 families (colour notations, margin/padding/inset/border/border-radius/font/background shorthand-longhand interleavings, !important, duplicates and unknown-value fallbacks, custom properties, calc trees, numeric forms, gradients, transforms) as single rules, as interacting rule pairs within a family, nested with & in every position and wrapped in 16 at-rule contexts (@media true/false/print, @supports true/false/unknown, @layer, @container, nested); x {default, minify, minify-syntax, chrome100 lowering, safari11+firefox60 lowering}; oracle: Chrome 147 computes every element x ~100 properties x 2 viewport widths for input and output, which must be equal; @import graphs loaded natively by Chrome vs the bundle; distinct = distinct outputs"
+	c.Rule = "style sheets over a generated grammar: 37 selectors (type/class/id/attribute/pseudo, combinators, :is/:where/:not/:has, lists, deliberately unknown selectors) x ~180 declaration blocks in 7 families (colour notations, margin/padding/inset/border/border-radius/font/background shorthand-longhand interleavings, !important, duplicates and unknown-value fallbacks, custom properties, calc trees, numeric forms, gradients, transforms) as single rules, as interacting rule pairs within a family, as at-rule sandwiches W1{R} W2{R'} W1{R''} over 12 block wrappers (layers, media, supports, container, nesting), nested with & in every position and wrapped in 16 at-rule contexts (@media true/false/print, @supports true/false/unknown, @layer, @container, nested); x {default, minify, minify-syntax, chrome100 lowering, safari11+firefox60 lowering}; oracle: Chrome 147 computes every element x ~100 properties x 2 viewport widths for input and output, which must be equal; @import graphs loaded natively by Chrome vs the bundle; distinct = distinct outputs"
 	c.Assump = []string{"Chrome 147 (headless shell) is the cascade/value engine; other browsers are not evaluated", "for lowering targets, sheets using wide-gamut or relative colour syntax are only compared under non-lowering configurations (out-of-gamut lowering excluded)", "the 'understands less' clause is decided through the unknown selectors/values/at-rules in the alphabet, which Chrome itself drops"}
 	pool := NewScriptPool("chrome_worker.js")
 	defer pool.Close()
@@ -246,6 +246,40 @@ func runC12(c *Check) {
 				add(w.wrap(b))
 				add(w.wrap(b) + " .a { color: orange; margin: 7px }")
 				add(".a { color: orange !important; margin: 7px } " + w.wrap(b))
+			}
+		}
+	}
+	// (4b) at-rule sandwiches: W1{R1} W2{R2} W1{R1'} for every pair of block wrappers, with rules that compete for the
+	// same elements. Removing or merging a "duplicate" at-rule block is only sound if it does not change layer order
+	// (first declaration), condition scope or source order.
+	blockWraps := []struct{ name, head string }{
+		{"layer-a", "@layer a"}, {"layer-b", "@layer b"}, {"layer-anon", "@layer"}, {"layer-a.b", "@layer a.b"},
+		{"media-wide", "@media (min-width: 500px)"}, {"media-narrow", "@media (max-width: 499px)"}, {"media-screen", "@media screen"},
+		{"supports-true", "@supports (display: grid)"}, {"supports-false", "@supports (unknown-prop: x)"},
+		{"container", "@container (min-width: 100px)"}, {"scope-like-nesting", ".a"}, {"plain", ""},
+	}
+	bw := func(w struct{ name, head string }, r string) string {
+		if w.head == "" {
+			return r
+		}
+		return w.head + " { " + r + " }"
+	}
+	sandR := [][3]string{
+		{"p { color: red }", "p { color: blue }", "p { color: red }"},
+		{"p { color: red; margin: 1px }", "p { color: blue }", "p { margin: 2px }"},
+		{".a { color: red !important }", ".a { color: blue !important }", ".a { color: red !important }"},
+	}
+	for i, w1 := range blockWraps {
+		for j, w2 := range blockWraps {
+			for k, rr := range sandR {
+				if quick && (i+j+k)%2 != 0 && !(strings.HasPrefix(w1.name, "layer") && strings.HasPrefix(w2.name, "layer")) {
+					continue
+				}
+				add("div { container-type: inline-size } " + bw(w1, rr[0]) + " " + bw(w2, rr[1]) + " " + bw(w1, rr[2]))
+				if k == 0 {
+					add(bw(w1, rr[0]) + " " + bw(w2, rr[1]) + " " + bw(w1, rr[0]) + " " + bw(w2, rr[1]))
+					add("@layer b, a; " + bw(w1, rr[0]) + " " + bw(w2, rr[1]) + " " + bw(w1, rr[0]))
+				}
 			}
 		}
 	}
